@@ -236,7 +236,7 @@ func (fr *frame) callClosure(p *Path, e *ast.CallExpr, v *types.Var) []PV {
 			}
 			r.Returned = false
 			r.Ret = nil
-			r.Vars = saved
+			r.Vars = copyVars(saved)
 			out = append(out, PV{r, val})
 		}
 	}
@@ -261,7 +261,7 @@ func (fr *frame) callRepo(p *Path, e *ast.CallExpr, fi *FuncInfo, recv Value, ar
 		}
 	}
 	var res []PV
-	if fi.Contract != nil && !fi.Contract.Inline {
+	if fi.Contract != nil && !fi.Contract.Inline && !c.ForceInline[shortKey(fi.Key)] {
 		res = fr.callContract(p, e, fi, recv, args)
 	} else {
 		res = fr.callInline(p, e, fi, recv, args)
@@ -396,10 +396,18 @@ func (fr *frame) callInline(p *Path, e *ast.CallExpr, fi *FuncInfo, recv Value, 
 		}
 		r.Returned = false
 		r.Ret = nil
-		r.Vars = saved
+		r.Vars = copyVars(saved) // sibling paths must not share the caller's variable map
 		out = append(out, PV{r, val})
 	}
 	return out
+}
+
+func copyVars(m map[types.Object]Value) map[types.Object]Value {
+	c := make(map[types.Object]Value, len(m))
+	for k, v := range m {
+		c[k] = v
+	}
+	return c
 }
 
 func bindParams(p *Path, fi *FuncInfo, recv Value, args []Value) {
@@ -686,6 +694,9 @@ func (fr *frame) callStdlib(p *Path, e *ast.CallExpr, name string, recv Value, a
 					sv.Elems = append(sv.Elems, mkStr(x))
 				}
 				sv.Len = mkInt(int64(len(parts)))
+				return one(p, sv)
+			}
+			if sv, ok := c.splitStructured(s, sep); ok {
 				return one(p, sv)
 			}
 			if sn := sepName(sep); sn != "" {
@@ -1035,3 +1046,90 @@ func assignedOuterVars(info *types.Info, body *ast.BlockStmt) []*types.Var {
 func ratInt(n int) *big.Rat { return new(big.Rat).SetInt64(int64(n)) }
 
 var _ = constant.MakeInt64
+
+// splitStructured applies strings.Split to a concatenation term whose non-literal pieces are known to be free of the
+// separator (applications of prelude functions all of whose string results are separator-free, e.g. code_v2_AV).
+func (c *Ctx) splitStructured(s Term, sep string) (*SliceVal, bool) {
+	var parts []string
+	switch {
+	case strings.HasPrefix(s.S, "(str.++ "):
+		parts = splitTop(s.S[8 : len(s.S)-1])
+	case strings.HasPrefix(s.S, "("):
+		parts = []string{s.S}
+	default:
+		return nil, false
+	}
+	var elems [][]Term
+	cur := []Term{}
+	for _, pt := range parts {
+		if strings.HasPrefix(pt, "\"") {
+			lit := decodeSMTString(strings.ReplaceAll(pt[1:len(pt)-1], "\"\"", "\""))
+			pieces := strings.Split(lit, sep)
+			for i, pc := range pieces {
+				if i > 0 {
+					elems = append(elems, cur)
+					cur = []Term{}
+				}
+				if pc != "" {
+					cur = append(cur, mkStr(pc))
+				}
+			}
+			continue
+		}
+		if !c.sepFreeTerm(pt, sep) {
+			return nil, false
+		}
+		cur = append(cur, Term{S: pt, Sort: SStr})
+	}
+	elems = append(elems, cur)
+	sv := &SliceVal{Known: true}
+	for _, e := range elems {
+		if len(e) == 0 {
+			sv.Elems = append(sv.Elems, mkStr(""))
+		} else {
+			sv.Elems = append(sv.Elems, tConcat(e...))
+		}
+	}
+	sv.Len = mkInt(int64(len(sv.Elems)))
+	c.AxiomsUsed["A1"] = true
+	return sv, true
+}
+
+// sepFreeTerm: the term is an application of a prelude function whose every string literal result lacks the separator.
+func (c *Ctx) sepFreeTerm(t, sep string) bool {
+	if !strings.HasPrefix(t, "(") {
+		return false
+	}
+	items := splitTop(t[1 : len(t)-1])
+	if len(items) == 0 {
+		return false
+	}
+	d, ok := c.U.SpecDefs[items[0]]
+	if !ok || d.Result != SStr {
+		return false
+	}
+	okAll := true
+	var walk func(x *SX)
+	walk = func(x *SX) {
+		if x.List == nil {
+			if x.IsStr && strings.Contains(decodeSMTString(x.Atom), sep) {
+				okAll = false
+			}
+			return
+		}
+		if len(x.List) > 0 && x.List[0].List == nil {
+			switch x.List[0].Atom {
+			case "ite", "=", "and", "or", "not":
+			default:
+				if _, isParam := map[string]bool{}[x.List[0].Atom]; !isParam && len(x.List) > 1 {
+					okAll = false // calls other functions: not analysed
+				}
+			}
+		}
+		for _, ch := range x.List {
+			walk(ch)
+		}
+	}
+	walk(d.Body)
+	return okAll
+}
